@@ -362,10 +362,13 @@ def run(out: core.Outcome) -> None:
             # candidate rebuilt from a row of a structured array (its data is a numpy.void, not a record)
             cs.append(SphericalDroplet(np.array([3.0, 16.0 + 4.1]), 0.0))
             cs.append(DiffuseDroplet(np.array([20.26, -3.74]), 0.05, None))
-            rows = np.array([cs[0].data], dtype=cs[0].data.dtype)
+            plain = np.dtype(cs[0].data.dtype.descr)          # a plain structured dtype: its rows are numpy.void scalars
+            rows = np.array([tuple(cs[0].data)], dtype=plain)
             cs.append(DiffuseDroplet.from_data(rows[0]))
-            tiny = np.array([(np.array([9.26, 33.0]), 0.05, np.nan)], dtype=cs[0].data.dtype)
+            tiny = np.array([(np.array([9.26, 33.0]), 0.05, np.nan)], dtype=plain)
             cs.append(DiffuseDroplet.from_data(tiny[0]))
+            if type(cs[-1].data) is not np.void:
+                raise core.MachineryError("scenario: candidate data is not a numpy.void")
             return cs
 
         for budget in (None, 3):
